@@ -88,6 +88,13 @@ claim("C18", "proof", "interprocedural non-interference (taint) rule: uses of th
       "Trusted: <[u8]>::get(a..b) is exact; bounded parses read only through get (C04). Sub-buffers have header-designated extents and are not length-tainted.",
       "DESIGN.md 5/C18")
 
+claim("C15", "other", "term template over the outcomes of StringTable::get_raw / get and the body of the search predicate (idiom-bound)",
+      "Decides that get_raw(off) returns the tail data.get(off..) with the unmodified offset, cut at the unmodified result of a first-match search whose predicate is byte == 0, "
+      "that a miss is StringTableMissingNul and an out-of-range offset BadOffset, and that get is from_utf8 over it with both errors propagated. The property then follows from the "
+      "documented semantics of get/position/split_at/from_utf8.",
+      "Partial / idiom-bound: implementations outside the recognised idioms (memchr, manual loops) are reported as UNRECOGNISED, not judged. Trusted: the four core functions.",
+      "DESIGN.md 5/C15")
+
 for pid in ["C01", "C02", "C03", "C04", "C05", "C06", "C07", "C08", "C09", "C10", "C11", "C12", "C13", "C14", "C15", "C16", "C17", "C18", "C20"]:
     if pid not in CLAIMS:
         na(pid, "static rule designed (DESIGN.md section 5) but its checker is not built yet in this revision; not claimed until it runs silent on the tree and fires on control mutants")
